@@ -210,7 +210,7 @@ def run(ctx):
                 W2 = fn.bbs[init_sites[-1]]["t"]["d"][0]
                 g = cfg.call_guard(fn, init_sites[-1])
                 # the user variable is re-assigned from the temp; also collect switches on the user var after dispatch
-                names = [l for l, n in fn.var_names().items() if n == "is_init_secure_api"]
+                names = [l for l in range(fn.argc + 1, len(fn.locals)) if fn.locals[l].get("u") and fn.locals[l]["ty"] == "bool" and any(x[0] == "call" and x[1] == H + "is_init_secure_api" for x in vf.producers(fn, {"c": [l, []]}))]
                 gv = cfg.local_guard(fn, names[0]) if names else g
                 post = cfg.reach(fn, starts=[fn.bbs[disp[0]]["t"]["t"]])
                 false_edges = {e for e in (g.fail | gv.fail) if e[0] in post}
